@@ -514,6 +514,16 @@ func (c *chroniclerV2) ensureWriter() error {
 		return nil
 	}
 
+	if _, err := os.Stat(c.hydFilePath); os.IsNotExist(err) {
+		// The hashed parent folder is shared with other swamps. It was created when this swamp was
+		// summoned, but Destroy() of a sibling swamp removes the folder when it finds it empty - which
+		// it is as long as this swamp has not flushed yet. Without re-creating it here the first write
+		// (and every later one) fails and the records of this swamp are lost.
+		if err := os.MkdirAll(filepath.Dir(c.hydFilePath), os.ModePerm); err != nil {
+			return err
+		}
+	}
+
 	// NewFileWriterWithName creates a V3 file with the name in the header area
 	// when the file does not exist (or its creation was interrupted), and
 	// preserves the format (V2 or V3) of an existing file.
